@@ -214,7 +214,7 @@ class Interp:
                 return Choice([Dom(o.name, True) for o in inner.opts])
         if isinstance(node, ast.Subscript):
             base = self.ev(node.value, env)
-            if isinstance(base, Lst) and all(isinstance(e, Dom) for e in base.elts):
+            if isinstance(base, (Lst, Tup)) and base.elts and all(isinstance(e, Dom) for e in base.elts):
                 idx = self.ev(node.slice, env)
                 if isinstance(idx, Const) and isinstance(idx.v, (int, bool)):
                     return base.elts[int(idx.v)]
